@@ -1,4 +1,241 @@
-import PieModel.Build.Pie
+/-
+Property C05 (local detection logic): hidden dependencies.  A read of a resource whose recorded
+writer is not (transitively) required by the reader aborts; a write to a resource one of whose
+recorded readers does not (transitively) require the writer aborts — in `write` before the
+resource is modified.  Exact characterisations of when these aborts happen, and of all abort
+kinds `doRead`/`doWrite`/`doWrote` can produce.
+
+Unfolding work: `PieModel/Build/Proofs/{SessionLemmas,ValidateWrite}.lean`.
+-/
+import PieModel.Build.Proofs.ValidateWrite
+import PieModel.Build.Proofs.DecEq
+import PieModel.Build.StdSem
+import PieModel.Build.Script
+
 namespace PieModel
-theorem C05_placeholder : True := trivial
+open Sess SessL
+
+variable (sem : Sem)
+
+/-! ### reads -/
+
+/-- Reading a resource whose recorded writer `w` is not transitively required by the reading task:
+abort `hidden`.  Resource state and store (after node lookup) are as before, only `read_start` was
+reported, no stamp taken, no dependency added. -/
+theorem C05_read_hidden_abort (s : Sess) (r c cur w : Nat) (st : Store) (dst : Nat)
+    (hcur : s.cur = some cur) (hn : s.store.getOrCreateResNode r = (st, dst))
+    (hw : st.taskWritingTo dst = some w) (hct : st.containsTransitive cur w = false) :
+    doRead sem s r c =
+      ({ s with store := st, trace := s.trace ++ [.readStart r c] }, .abort .hidden) := by
+  rw [doRead_eq sem s r c cur st dst hcur hn]
+  have : readHidden st cur dst = true := (readHidden_eq_true_iff st cur dst).mpr ⟨w, hw, hct⟩
+  simp [this]
+
+/-- Exactly when `doRead` aborts with `hidden`. -/
+theorem C05_read_hidden_iff (s : Sess) (r c : Nat) :
+    (doRead sem s r c).2 = .abort .hidden ↔
+      ∃ cur, s.cur = some cur ∧
+        ∃ w, (s.store.getOrCreateResNode r).1.taskWritingTo (s.store.getOrCreateResNode r).2 = some w ∧
+          (s.store.getOrCreateResNode r).1.containsTransitive cur w = false := by
+  cases hcur : s.cur with
+  | none => simp [doRead_no_cur sem s r c hcur]
+  | some cur =>
+    rcases hp : s.store.getOrCreateResNode r with ⟨st, dst⟩
+    rw [doRead_abort_iff sem s r c cur st dst .hidden hcur hp, readHidden_eq_true_iff]
+    simp
+
+/-- `hidden` is the only abort kind of `doRead` besides the store-corruption panic `bug 1`, and
+the latter needs a dead endpoint. -/
+theorem C05_read_abort_kinds (s s' : Sess) (r c : Nat) (a : Abort)
+    (h : doRead sem s r c = (s', .abort a)) :
+    a = .hidden ∨
+    (a = .bug 1 ∧ ∃ cur, s.cur = some cur ∧
+      ((s.store.getOrCreateResNode r).1.g.containsNode cur = false ∨
+       (s.store.getOrCreateResNode r).1.g.containsNode (s.store.getOrCreateResNode r).2 = false)) := by
+  have h2 : (doRead sem s r c).2 = .abort a := by rw [h]
+  cases hcur : s.cur with
+  | none => rw [doRead_no_cur sem s r c hcur] at h2; cases h2
+  | some cur =>
+    rcases hp : s.store.getOrCreateResNode r with ⟨st, dst⟩
+    rw [doRead_abort_iff sem s r c cur st dst a hcur hp] at h2
+    rcases h2 with ⟨rfl, _⟩ | ⟨rfl, _, stamp, _, hb⟩
+    · exact .inl rfl
+    · exact .inr ⟨rfl, cur, rfl, (addDependency_bug_iff st cur dst _).mp hb⟩
+
+/-- A task that wrote a resource and then reads it aborts against itself (`n` never transitively
+reaches `n`). -/
+theorem C05_read_own_write_aborts (s : Sess) (r c cur : Nat) (st : Store) (dst : Nat)
+    (hcur : s.cur = some cur) (hn : s.store.getOrCreateResNode r = (st, dst))
+    (hw : st.taskWritingTo dst = some cur) :
+    (doRead sem s r c).2 = .abort .hidden := by
+  rw [C05_read_hidden_abort sem s r c cur cur st dst hcur hn hw (st.containsTransitive_self cur)]
+
+/-- No abort if the writer is transitively required (or there is none) and the store is sound. -/
+theorem C05_read_visible_ok (s : Sess) (r c cur : Nat) (st : Store) (dst : Nat)
+    (hcur : s.cur = some cur) (hn : s.store.getOrCreateResNode r = (st, dst))
+    (hvis : ∀ w, st.taskWritingTo dst = some w → st.containsTransitive cur w = true) :
+    (doRead sem s r c).2 ≠ .abort .hidden := by
+  rw [Ne, C05_read_hidden_iff, hn]
+  rintro ⟨cur', hc', w, hw, hct⟩
+  rw [hcur] at hc'; cases hc'
+  rw [hvis w hw] at hct; cases hct
+
+/-! ### writes -/
+
+/-- Writing a resource without recorded writer but with a recorded reader `y` that does not
+transitively require the writing task: abort `hidden`, before the resource is modified. -/
+theorem C05_write_hidden_abort (s : Sess) (r c cur y : Nat) (v : Option Int) (st : Store) (dst : Nat)
+    (hcur : s.cur = some cur) (hn : s.store.getOrCreateResNode r = (st, dst))
+    (hw : st.taskWritingTo dst = none) (hy : y ∈ st.tasksReadingFrom dst)
+    (hct : st.containsTransitive y cur = false) :
+    doWrite sem s r c v =
+      ({ s with store := st, trace := s.trace ++ [.writeStart r c] }, .abort .hidden) :=
+  doWrite_validate_abort sem s r c cur v st dst _ hcur hn
+    ((validateWrite_hidden_iff st cur dst).mpr ⟨hw, y, hy, hct⟩)
+
+/-- `written_to`: same verdict, the content is already modified. -/
+theorem C05_wrote_hidden_abort (s : Sess) (r c cur y : Nat) (v : Option Int) (st : Store) (dst : Nat)
+    (hcur : s.cur = some cur) (hn : s.store.getOrCreateResNode r = (st, dst))
+    (hw : st.taskWritingTo dst = none) (hy : y ∈ st.tasksReadingFrom dst)
+    (hct : st.containsTransitive y cur = false) :
+    doWrote sem s r c v =
+      ({ s.setContent r v with store := st, trace := s.trace ++ [.writeStart r c] }, .abort .hidden) :=
+  doWrote_validate_abort sem s r c cur v st dst _ hcur hn
+    ((validateWrite_hidden_iff st cur dst).mpr ⟨hw, y, hy, hct⟩)
+
+/-- Exactly when `doWrite` aborts with `hidden`. -/
+theorem C05_write_abort_iff (s : Sess) (r c : Nat) (v : Option Int) :
+    (doWrite sem s r c v).2 = .abort .hidden ↔
+      ∃ cur, s.cur = some cur ∧
+        (s.store.getOrCreateResNode r).1.taskWritingTo (s.store.getOrCreateResNode r).2 = none ∧
+        ∃ y ∈ (s.store.getOrCreateResNode r).1.tasksReadingFrom (s.store.getOrCreateResNode r).2,
+          (s.store.getOrCreateResNode r).1.containsTransitive y cur = false := by
+  cases hcur : s.cur with
+  | none => simp [doWrite_no_cur sem s r c v hcur]
+  | some cur =>
+    rcases hp : s.store.getOrCreateResNode r with ⟨st, dst⟩
+    rw [doWrite_abort_iff sem s r c cur v st dst .hidden hcur hp, validateWrite_hidden_iff]
+    simp
+
+theorem C05_wrote_abort_iff (s : Sess) (r c : Nat) (v : Option Int) :
+    (doWrote sem s r c v).2 = .abort .hidden ↔
+      ∃ cur, s.cur = some cur ∧
+        (s.store.getOrCreateResNode r).1.taskWritingTo (s.store.getOrCreateResNode r).2 = none ∧
+        ∃ y ∈ (s.store.getOrCreateResNode r).1.tasksReadingFrom (s.store.getOrCreateResNode r).2,
+          (s.store.getOrCreateResNode r).1.containsTransitive y cur = false := by
+  cases hcur : s.cur with
+  | none => simp [doWrote_no_cur sem s r c v hcur]
+  | some cur =>
+    rcases hp : s.store.getOrCreateResNode r with ⟨st, dst⟩
+    rw [doWrote_abort_iff sem s r c cur v st dst .hidden hcur hp, validateWrite_hidden_iff]
+    simp
+
+/-- A task that read a resource and then writes it aborts against itself. -/
+theorem C05_self_read_write_aborts (s : Sess) (r c cur : Nat) (v : Option Int) (st : Store) (dst : Nat)
+    (hcur : s.cur = some cur) (hn : s.store.getOrCreateResNode r = (st, dst))
+    (hw : st.taskWritingTo dst = none) (hy : cur ∈ st.tasksReadingFrom dst) :
+    (doWrite sem s r c v).2 = .abort .hidden := by
+  rw [C05_write_hidden_abort sem s r c cur cur v st dst hcur hn hw hy (st.containsTransitive_self cur)]
+
+/-- All abort kinds of `doWrite`: the two of `validate_write`, or the store-corruption panic
+`bug 2`, which needs a dead endpoint. -/
+theorem C05_write_abort_kinds (s s' : Sess) (r c : Nat) (v : Option Int) (a : Abort)
+    (h : doWrite sem s r c v = (s', .abort a)) :
+    a = .overlap ∨ a = .hidden ∨
+    (a = .bug 2 ∧ ∃ cur, s.cur = some cur ∧
+      ((s.store.getOrCreateResNode r).1.g.containsNode cur = false ∨
+       (s.store.getOrCreateResNode r).1.g.containsNode (s.store.getOrCreateResNode r).2 = false)) := by
+  have h2 : (doWrite sem s r c v).2 = .abort a := by rw [h]
+  cases hcur : s.cur with
+  | none => rw [doWrite_no_cur sem s r c v hcur] at h2; cases h2
+  | some cur =>
+    rcases hp : s.store.getOrCreateResNode r with ⟨st, dst⟩
+    rw [doWrite_abort_iff sem s r c cur v st dst a hcur hp] at h2
+    rcases h2 with hv | ⟨rfl, _, stamp, _, hb⟩
+    · rcases validateWrite_kinds st cur dst a hv with rfl | rfl
+      · exact .inl rfl
+      · exact .inr (.inl rfl)
+    · exact .inr (.inr ⟨rfl, cur, rfl, (addDependency_bug_iff st cur dst _).mp hb⟩)
+
+/-! ### aborts precede modification
+
+The statement "any `.abort` of `doWrite` has `s'.fs = s.fs`" is FALSE for an arbitrary (corrupt)
+session: the panic `bug 2` ("BUG: source/destination node not found" in `add_dependency`) is
+raised after the write function ran.  Counterexample below; the corrected statements are: the two
+`validate_write` aborts precede the modification, and they are the only aborts when the current
+task and the resource node are live nodes of the graph. -/
+
+/-- Counterexample: `cur = some 5` in an empty graph. -/
+def c05Corrupt : Sess := { cur := some 5 }
+
+open DecEqAux in
+example : (doWrite stdSem c05Corrupt 0 0 (some 1)).2 = .abort (.bug 2) ∧
+    (doWrite stdSem c05Corrupt 0 0 (some 1)).1.fs = [(0, 1)] ∧ c05Corrupt.fs = [] := by
+  decide +kernel
+
+/-- Corrected (1): a hidden-dependency or overlap abort leaves the resource state untouched. -/
+theorem C05_C06_abort_before_modification_corrected (s s' : Sess) (r c : Nat) (v : Option Int)
+    (a : Abort) (h : doWrite sem s r c v = (s', .abort a)) (ha : a = .overlap ∨ a = .hidden) :
+    s'.fs = s.fs ∧ s'.store = (s.store.getOrCreateResNode r).1 ∧
+      s'.trace = s.trace ++ [.writeStart r c] := by
+  have h2 : (doWrite sem s r c v).2 = .abort a := by rw [h]
+  cases hcur : s.cur with
+  | none => rw [doWrite_no_cur sem s r c v hcur] at h2; cases h2
+  | some cur =>
+    rcases hp : s.store.getOrCreateResNode r with ⟨st, dst⟩
+    rw [doWrite_abort_iff sem s r c cur v st dst a hcur hp] at h2
+    rcases h2 with hv | ⟨rfl, _⟩
+    · rw [doWrite_validate_abort sem s r c cur v st dst a hcur hp hv] at h
+      cases h
+      exact ⟨rfl, rfl, rfl⟩
+    · rcases ha with ha | ha <;> cases ha
+
+/-- Corrected (2): if the executing task and the resource node are live nodes, *every* abort of
+`doWrite` happens before the resource is modified. -/
+theorem C05_C06_abort_before_modification_live (s s' : Sess) (r c : Nat) (v : Option Int) (a : Abort)
+    (hlive : ∀ cur, s.cur = some cur →
+      (s.store.getOrCreateResNode r).1.g.containsNode cur = true ∧
+      (s.store.getOrCreateResNode r).1.g.containsNode (s.store.getOrCreateResNode r).2 = true)
+    (h : doWrite sem s r c v = (s', .abort a)) :
+    s'.fs = s.fs := by
+  rcases C05_write_abort_kinds sem s s' r c v a h with rfl | rfl | ⟨_, cur, hcur, hdead⟩
+  · exact (C05_C06_abort_before_modification_corrected sem s s' r c v _ h (.inl rfl)).1
+  · exact (C05_C06_abort_before_modification_corrected sem s s' r c v _ h (.inr rfl)).1
+  · obtain ⟨h₁, h₂⟩ := hlive cur hcur
+    rcases hdead with hd | hd
+    · rw [h₁] at hd; cases hd
+    · rw [h₂] at hd; cases hd
+
+/-! ### non-vacuity -/
+
+open DecEqAux
+
+/-- 0 writes resource 8; 1 reads 8 (without requiring 0); 2 requires 0 then 1 (hidden read);
+3 requires 1 then 0 (hidden write); 4 reads then writes 8; 5 writes then reads 8;
+6 requires 0 and then reads 8 (the dependency is visible); 7 requires 1 then declares a write. -/
+def c05Tbl : List (Nat × Script) :=
+  [(0, .write 8 0 (some (.const 1)) (.ret (.const 0))),
+   (1, .read 8 0 (.ret (.var 0))),
+   (2, .req 0 0 (.req 1 0 (.ret (.const 0)))),
+   (3, .req 1 0 (.req 0 0 (.ret (.const 0)))),
+   (4, .read 8 0 (.write 8 0 (some (.const 3)) (.ret (.const 0)))),
+   (5, .write 8 0 (some (.const 3)) (.read 8 0 (.ret (.const 0)))),
+   (6, .req 0 0 (.read 8 0 (.ret (.var 1)))),
+   (7, .req 1 0 (.wrote 8 0 (some (.const 4)) (.ret (.const 0))))]
+
+def c05Run (t : Nat) := sessionRequire stdSem (bodyOf c05Tbl) 100 (PieSt.newSession {}) t
+
+/-- hidden read: aborts at `read_start` -/
+example : (c05Run 2).2 = .abort .hidden ∧ (c05Run 2).1.trace.getLast? = some (.readStart 8 0) := by
+  decide +kernel
+/-- hidden write: aborts before the resource is modified -/
+example : (c05Run 3).2 = .abort .hidden ∧ (c05Run 3).1.fs = [] ∧
+    (c05Run 3).1.trace.getLast? = some (.writeStart 8 0) := by decide +kernel
+/-- a task against itself, both orders -/
+example : (c05Run 4).2 = .abort .hidden ∧ (c05Run 5).2 = .abort .hidden := by decide +kernel
+/-- visible dependency: fine -/
+example : (c05Run 6).2 = .ok 1 := by decide +kernel
+/-- `written_to`: aborts with the content already modified -/
+example : (c05Run 7).2 = .abort .hidden ∧ (c05Run 7).1.fs = [(8, 4)] := by decide +kernel
+
 end PieModel
